@@ -8,9 +8,9 @@ from checks import krill_common as kc
 
 PID = "C14"
 LEVEL = "model_checking"
-THEMES = ["tdue", "tnot", "tduring"]
+THEMES = ["tdue", "tnot", "tduring", "tstag"]
 NEEDED = ["Republish", "Renew", "ExpectReissued", "ExpectRenewed",
-          "ExpectSame", "Settled", "DueTouch"]
+          "ExpectSame", "Settled", "DueTouch", "ExpectByMargin"]
 
 RULE = (
     "behaviours = TLC simulation of MC_Krill_gen with maintenance runs "
@@ -23,14 +23,18 @@ RULE = (
     "due); theme tduring: API operations and tasks while everything is due "
     "(re-issue as a side effect of commands: what the CA's object store "
     "holds must be published once no repository synchronisation is pending); "
-    "in every state: numbers agree, validity contains now, numbers "
+    "theme tstag: key sets of different age (a shorter manifest lifetime "
+    "is in force while keys are rolled), then a maintenance run under a "
+    "margin between the lifetimes: exactly the CAs with a key set - "
+    "current, staging or old - inside the margin re-issue, all their sets "
+    "together, the others change nothing; in every state: numbers agree, validity contains now, numbers "
     "never go down; distinct = distinct event sequences; non-trivial = "
     "contains a maintenance run and reaches a settled state")
 
 
 def run(tier, seed):
     return kc.run_property(
-        PID, LEVEL, tier, seed, THEMES, quick_num=8, thorough_num=200,
+        PID, LEVEL, tier, seed, THEMES, quick_num=6, thorough_num=200,
         assumptions=kc.COMMON_ASSUMPTIONS + [
             "time does not pass within a run: due-ness is produced by timing "
             "values set on the Config object after its verification (margin "
